@@ -76,17 +76,40 @@ UNIT = {
         lx('read_input', loops=2, ret='r',
            requires=[('wf', WF0)],
            rewrites=[('R1', 1)],
+           # ghost code in front of the `break` (the executable statement is unchanged): the proof of the loop's exit condition
+           splices=[{'id': 'blank_from_the_comment_on', 'op': 'replace', 'rule': 'ghost-block', 'anchor': '=> break,', 'text': '''=> { proof {
+            assert(comment_start(self.position + offset, self.input@));
+            assert forall |k: int| 0 <= k < 12 implies #[trigger] buffer@[k] == window_char(self.input@, self.position as int, k) by {
+              if k >= offset { assert(comment_start(self.position + offset, self.input@)); assert(window_char(self.input@, self.position as int, k) == ' '); }
+              else { assert(!(exists |p: int| self.position <= p <= self.position + k && #[trigger] comment_start(p, self.input@))); }
+            }
+          } break },'''}],
            ensures=[('wf', WF1), ('frame', FRAME),
                     ('layout_skipped', 'final(self).position == final(self).input@.len() || (!g_whitespace(final(self).input@[final(self).position as int]) && !comment_start(final(self).position as int, final(self).input@))'),
-                    ('window', 'forall |k: int| 0 <= k < 12 ==> #[trigger] r@[k] == (if final(self).position + k < final(self).input@.len() && !g_whitespace(final(self).input@[final(self).position + k]) { final(self).input@[final(self).position + k] } else { \' \' })')],
+                    ('window', 'forall |k: int| 0 <= k < 12 ==> #[trigger] r@[k] == window_char(final(self).input@, final(self).position as int, k)')],
            loop_specs={0: {'invariant': [('wf', WF), ('frame', 'self.input == old(self).input && self.position >= old(self).position')],
                            'ensures': [('layout_skipped', 'self.position == self.input@.len() || (!g_whitespace(self.input@[self.position as int]) && !comment_start(self.position as int, self.input@))')],
                            'decreases': 'self.input@.len() - self.position',
                            'body_prefix': 'let ghost p0 = self.position;'},
                        1: {'iter_name': 'itb',
-                           'invariant': [('wf', WF), ('len', 'buffer@.len() == 12, itb.seq().len() == 12'),
+                           'invariant': [('wf', WF), ('len', 'buffer@.len() == 12, itb.seq().len() == 12')],
+                           'invariant_except_break': [
+                                         ('no_comment_so_far', 'forall |p: int| self.position <= p < self.position + offset ==> !#[trigger] comment_start(p, self.input@)'),
                                          ('filled', 'forall |k: int| 0 <= k < offset ==> #[trigger] buffer@[k] == (if self.position + k < self.input@.len() && !g_whitespace(self.input@[self.position + k]) { self.input@[self.position + k] } else { \' \' })'),
-                                         ('rest_blank', 'forall |k: int| offset <= k < 12 ==> #[trigger] buffer@[k] == \' \'')]}}),
+                                         ('rest_blank', 'forall |k: int| offset <= k < 12 ==> #[trigger] buffer@[k] == \' \'')],
+                           'ensures': [('window', 'forall |k: int| 0 <= k < 12 ==> #[trigger] buffer@[k] == window_char(self.input@, self.position as int, k)')]}}),
+        lx('comment_length', loops=2, ret='r',
+           requires=[('wf', WF), ('in_input', 'self.position + offset <= self.input@.len()')],
+           ensures=[('a_comment_iff_one_starts_here', '(r is Some) == comment_start(self.position + offset, self.input@)'),
+                    ('within_the_input_and_not_empty', 'r is Some ==> 2 <= r->Some_0 && self.position + offset + r->Some_0 <= self.input@.len()')],
+           loop_specs={0: {'invariant': [('wf', WF), ('a_comment', 'comment_start(self.position + offset, self.input@)'), ('progress', '2 <= length && self.position + offset + length <= self.input@.len()')],
+                           'decreases': 'self.input@.len() - (self.position + offset + length)'},
+                       1: {'invariant': [('wf', WF), ('a_comment', 'comment_start(self.position + offset, self.input@)'), ('progress', '2 <= length && self.position + offset + length <= self.input@.len()')],
+                           'decreases': 'self.input@.len() - (self.position + offset + length)'}}),
+        lx('is_next_character', loops=1, ret='r',
+           requires=[('wf', WF), ('in_input', 'self.position + offset <= self.input@.len()')],
+           loop_specs={0: {'invariant': [('wf', WF), ('in_input', 'self.position + offset <= self.input@.len()')],
+                           'decreases': 'self.input@.len() - (self.position + offset)'}}),
         lx('consume_hex_digit', ret='r',
            requires=[('wf', WF0)],
            ensures=[('wf', WF1), ('frame', FRAME),
@@ -167,7 +190,7 @@ NOT_DECIDED = {
         'consume_name (C10) - not yet under contract',
     ],
     'C05': [
-        'lexer functions under contract: char_at, consume_whitespace, consume_comment, read_input, consume_digits, consume_hex_digit, consume_character(s), consume_chars, consume_unicode_literal, consume_unicode, consume_string: '
+        'lexer functions under contract: char_at, consume_whitespace, consume_comment, comment_length, is_next_character, read_input, consume_digits, consume_hex_digit, consume_character(s), consume_chars, consume_unicode_literal, consume_unicode, consume_string: '
         'no overflow, no out-of-bounds, termination of every loop (decreases). The LALR driver (parser.rs), read_next_token and consume_name are not decided',
     ],
     'C10': ['only the name character classes (grammar rules 28-30) are decided here'],
@@ -185,7 +208,12 @@ BOUNDED = {
                       'surrogate pair (supplementary planes), inside a string literal parses to the one-character string (2 224 186 literals; bounded duplicate of the Verus contracts of consume_unicode, decides it when a rewritten body leaves the extractor\'s reach)'},
             {'name': 'operator-precedence-round-trip', 'script': 'precdiff.py', 'args': ['--depth', '3'],
              'functions': ['feel-parser/src/lalr.rs (tables)', 'Parser::parse (table lookups)', 'Lexer::read_next_token / consume_name for operators, keywords and the type name after `instance of`'],
-             'bound': 'every syntax tree of one, two or three nested operators (every ordered pair and triple, every operand position) over or, and, =, <, between, in, +, -, *, /, **, unary minus, instance of, filter, path with bound '
+             'bound': 'every syntax tree of one, two or three nested operators (every ordered pair and triple, every operand position) over or, and, =, <, between (all three operand positions), in, +, -, *, /, **, unary minus, instance of, filter, path with bound '
                       'single-word names as leaves (about 5 900 trees, 31 000 parses): fully parenthesised and minimally parenthesised renderings give the same tree, one needed pair of parentheses removed gives a different tree; '
-                      'minimal parenthesisation computed from the precedence declarations of feel-grammar/src/feel.y with the yacc conflict rule'}],
+                      'minimal parenthesisation computed from the precedence declarations of feel-grammar/src/feel.y with the yacc conflict rule'},
+            {'name': 'layouts-do-not-change-the-tree', 'script': 'layoutdiff.py', 'args': [],
+             'functions': ['Lexer::read_next_token (keyword patterns over the look-ahead window)', 'Lexer::is_next_character', 'Lexer::read_input / consume_whitespace / consume_comment end to end'],
+             'bound': '62 token sequences covering every keyword and bracket of the expression language, each laid out with 16 separators (runs of spaces, tab, LF, CR LF, no-break / em / ideographic space, line and paragraph separator, '
+                      'vertical tab, block comments with and without white space around them, line comments) in every gap at once, in each single gap, in front and behind: 6 359 parses, each equal to the tree of the single-space layout; '
+                      'U+1680, U+180E, U+FEFF (white space AND name characters in the FEEL grammar) are left out, and a comment is not glued to a name that is not bound in the parsing scope'}],
 }
